@@ -62,6 +62,7 @@ func createDefaultHTTPClient() *http.Client {
 const (
 	ConstSessionTimeout      = 86400          // Session timeout in seconds
 	defaultBlacklistDuration = 24 * time.Hour // Default duration to blacklist a JTI
+	maxIncomingPathLength    = 1024           // Longest request URI remembered across a login
 )
 
 // TokenVerifier interface for token verification
@@ -1269,9 +1270,14 @@ func (t *TraefikOidc) defaultInitiateAuthentication(rw http.ResponseWriter, req 
 	if t.enablePKCE {
 		session.SetCodeVerifier(codeVerifier)
 	}
-	// Store the original path the user was trying to access
-	session.SetIncomingPath(req.URL.RequestURI())
-	t.logger.Debugf("Storing incoming path: %s", req.URL.RequestURI())
+	// Store the original path the user was trying to access. A very long request
+	// URI would not fit into the session cookie; the login then returns to "/".
+	incomingPath := req.URL.RequestURI()
+	if len(incomingPath) > maxIncomingPathLength {
+		incomingPath = "/"
+	}
+	session.SetIncomingPath(incomingPath)
+	t.logger.Debugf("Storing incoming path: %s", incomingPath)
 
 	// Save the session (to store CSRF, Nonce, etc.)
 	if err := session.Save(req, rw); err != nil {
